@@ -44,6 +44,9 @@ var edgeWords = []string{
 	"0000000000000000000", "9999999999999999999", "9999999999999999998", "0000000000000000001",
 	"5000000000000000000", "4999999999999999999", "5000000000000000001", "1000000000000000000",
 	"0000000000000000002", "9000000000000000000", "0999999999999999999", "0000000001000000000",
+	// floor and ceiling of B/k: where a divisor-scaling factor B/(v+1) and its look-alikes (B-1)/v part ways
+	"3333333333333333333", "3333333333333333334", "1666666666666666666", "1666666666666666667",
+	"1428571428571428571", "1111111111111111111", "2500000000000000000", "2000000000000000000",
 }
 
 // Digits returns n decimal digits (first one non-zero) following one of the
@@ -80,6 +83,9 @@ func (r *RNG) Digits(n int) []byte {
 		}
 	case 7, 8: // edge words, aligned so that they are whole words of the mantissa when left-aligned
 		off := r.Intn(19)
+		if r.Chance(35) {
+			off = 0 // the leading word is a whole edge word
+		}
 		for i := 0; i < n; {
 			w := edgeWords[r.Intn(len(edgeWords))]
 			if r.Chance(25) {
